@@ -57,7 +57,7 @@ fn observe_pf(w: &World, probes: &[u64]) -> MObs {
     MObs {
         num: c["num_members"].as_u64().unwrap_or(u64::MAX),
         limit: c["member_limit"].as_u64().unwrap_or(u64::MAX),
-        members: w.members_all(None).expect("members"),
+        members: w.members_all(None).unwrap_or_default(),
         has: probes.iter().map(|a| (*a, has_member(w, *a))).collect(),
         ledger: w.ledger(),
     }
@@ -102,9 +102,9 @@ fn observe_t(w: &World, probes: &[u64]) -> TObs {
             .ok()
             .and_then(|v| v["member_count"].as_u64())
             .unwrap_or(u64::MAX);
-        stages.push((cnt, w.members_all(Some(k as u32)).expect("members")));
+        stages.push((cnt, w.members_all(Some(k as u32)).unwrap_or_default()));
     }
-    let beyond = w.members_all(Some(nstages as u32)).expect("members beyond");
+    let beyond = w.members_all(Some(nstages as u32)).unwrap_or_default();
     let mut probe = vec![];
     for k in 0..=nstages {
         for a in probes {
@@ -357,8 +357,8 @@ fn run_pf(h: &History) -> Outcome {
             }
         }
     };
-    check_counts(&mut mon, "instantiate", &o0);
     enumeration_monitor(&mut mon, &w, "instantiate", o0.num, None);
+    check_counts(&mut mon, "instantiate", &o0);
     mon.capacity("instantiate", o0.num, o0.limit, None);
     mon.fees("instantiate", o0.limit, fees_paid, stray, &o0.ledger);
     let mut prev = o0.clone();
@@ -505,8 +505,8 @@ fn run_tiered(h: &History) -> Outcome {
             }
         }
     };
-    check_counts(&mut mon, "instantiate", &o0);
     enumeration_monitor(&mut mon, &w, "instantiate", o0.num, Some(&o0.stages.iter().map(|s| s.0).collect::<Vec<_>>()));
+    check_counts(&mut mon, "instantiate", &o0);
     mon.capacity("instantiate", o0.num, o0.limit, None);
     mon.fees("instantiate", o0.limit, fees_paid, stray, &o0.ledger);
     let mut prev = o0.clone();
